@@ -17,12 +17,13 @@ tvars == <<x, oidx, tomb, meta, eacl, alias, dom, txt, bal, abal, fee, afee, n, 
 
 Trace == ndJsonDeserialize(TraceFile)
 
-M_Owners  == {"o1", "o2", "o3"}
+M_Owners  == {"o1", "o2", "oa"}
 M_Cids    == {"c0", "c1", "c2", "c3", "c4", "c5"}
-M_COwner  == [c \in M_Cids |-> IF c \in {"c0", "c1", "c2"} THEN "o1" ELSE IF c \in {"c3", "c4"} THEN "o2" ELSE "o3"]
+M_COwner  == [c \in M_Cids |-> IF c \in {"c0", "c1", "c2"} THEN "o1" ELSE IF c \in {"c3", "c4"} THEN "o2" ELSE "oa"]
 M_Names   == {"n1", "n2", "n3"}
 
-EvOf(r) == Event(r.act, ToSet(r.S), r.c, r.v, r.nm, r.meta, r.o, r.k, r.amt, r.res, r.ret, r.ntf, r.xfer)
+EvOf(r) == Event2(r.act, ToSet(r.S), r.c, r.v, r.nm, r.meta, r.c2, r.v2, r.nm2, r.meta2, r.o, r.k, r.amt, r.res, r.res2, r.ret,
+                 r.ntf, r.ntf2, r.xfer, r.xfer2)
 
 ApiObs(o) ==
   [get   |-> [c \in Cids |-> o.get[c]],
@@ -45,6 +46,7 @@ Tags(r) == IF OnlyFormerAliasRecords(g') /\ \A c \in g'.dead : r.obs.strayOf[c] 
 SpecStep(r) ==
   LET e == EvOf(r) IN
   /\ CASE r.act = "put"       -> Put(e.S, e.c, e.v, e.nm, e.meta)
+       [] r.act = "put2"      -> Put2(e.S, e.c, e.v, e.nm, e.meta, e.c2, e.v2, e.nm2, e.meta2)
        [] r.act = "delete"    -> Delete(e.S, e.c)
        [] r.act = "setEACL"   -> SetEACL(e.S, e.c, e.v)
        [] r.act = "setConfig" -> SetConfig(e.S, e.k, e.amt)
@@ -71,7 +73,7 @@ Judge(r) ==
       /\ Flag(C04_Final(g, e), "C04", "Final", r, t)
       /\ Flag(C04_NoTrace(g2) /\ \A c \in g2.dead : r.obs.strayOf[c] = 0, "C04", "NoTrace", r, t)
       /\ Flag(C04_Notif(g, e), "C04", "Notif", r, t)
-      /\ Flag(C05_Exact(e) /\ (r.act = "put" => r.obs.strayBal = <<>> /\ r.badAmt = <<>>), "C05", "Exact", r, t)
+      /\ Flag(C05_Exact(e) /\ (r.act \in {"put", "put2"} => r.obs.strayBal = <<>> /\ r.badAmt = <<>>), "C05", "Exact", r, t)
       /\ Flag(C05_MustPay(e), "C05", "MustPay", r, t)
       /\ Flag(C05_Atomic(e), "C05", "Atomic", r, t)
       /\ Flag(r.obs.stray = <<>> /\ r.bad = <<>> /\ r.badAmt = <<>>, "DRIFT", "StrayOrUnmapped", r, t)
